@@ -108,6 +108,9 @@ THEOREMS = [
     "Verif.C20.molarity_to_molality_root_is_unique",
     "Verif.C20.hydro_surface_small_bead_limit",
     "Verif.C20.water_functions_increase_with_molarity",
+    "Verif.C20.density_of_water_in_range",
+    "Verif.C20.viscosity_of_water_positive",
+    "Verif.C20.passive_init_hydro_spectrum_pos",
 ]
 RULE = (
     "corpus (reference points, boundary inputs) + fixed dense log-spaced grids over the property's domain (f 0.1 Hz-100 kHz, "
